@@ -11,9 +11,11 @@ extra(): finite enumeration over every Rdata subclass x slot (setattr/delattr mu
 values must be of immutable types), Name, ImmutableRdataset; exhaustive small scopes are part of
 cases().
 """
+import copy
 import enum
 import itertools
 import operator
+import pickle
 
 import dns.immutable
 import dns._immutable_ctx as ictx
@@ -352,6 +354,13 @@ def run_rds(uni, ops):
                 res = ids[id(regs[op[1]][op[2]])]
             elif k == 21:
                 del regs[op[1]][op[2]]
+            elif k == 22:
+                rds_ = [objs[i] for i in op[4]]
+                if op[2] is not None:
+                    v = dns.rrset.from_rdata_list(dns.name.Name(op[2]), op[3], rds_) if op[1] % 2 == 0 else dns.rrset.from_rdata(dns.name.Name(op[2]), op[3], *rds_)
+                else:
+                    v = dns.rdataset.from_rdata_list(op[3], rds_) if op[1] % 2 == 0 else dns.rdataset.from_rdata(op[3], *rds_)
+                assign(regs, op[1], v)
             else:
                 raise IndexError("bad op")
         except (IndexError,) as e:
@@ -748,9 +757,13 @@ def gen_rds_case(rng, nops):
             d = dst()
             ops.append([3, d, reg()])
             regs = max(regs, d + 1)
-        elif r < 0.99:
+        elif r < 0.985:
             d = dst()
             ops.append([4, d, reg()])
+            regs = max(regs, d + 1)
+        elif r < 0.995:
+            d = dst()
+            ops.append([22, d, rng.choice([None, None] + NAMES[:3]), rng.choice(TTLS), [rng.randrange(nu) for _ in range(rng.choice([0, 1, 2, 3, 4]))]])
             regs = max(regs, d + 1)
         else:
             d = dst()
@@ -1075,7 +1088,7 @@ def oracle_rds(case, out, fail):
         for i, s in enumerate(prev):
             if s[0] == 1 and i < len(cur) and cur[i] != s:
                 k = op[0]
-                replaced = (k in (1, 2, 3, 4, 11) and op[1] == i) or (k == 13 and op[2] == i)
+                replaced = (k in (1, 2, 3, 4, 11, 22) and op[1] == i) or (k == 13 and op[2] == i)
                 if not replaced:
                     fail(what + f": ImmutableRdataset in register {i} changed", sig="immutable")
         k = op[0]
@@ -1110,6 +1123,22 @@ def oracle_rds(case, out, fail):
             src, dst = P(op[2]), cur[op[1]]
             if dst[0] != 0 or dst[1:3] != src[1:3] or dst[4:6] != src[4:6]:
                 fail(what + ": to_rdataset changed members, order or TTL")
+        elif k == 22:
+            touched = {op[1]}
+            c = cur[op[1]]
+            xs = op[4]
+            first = rec[xs[0]]
+            if c[0] != (2 if op[2] is not None else 0) or c[1:3] != [first[1], first[2]] or c[4] != op[3]:
+                fail(what + ": from_rdata_list: kind/class/type/TTL wrong", sig="ttl")
+            if first[2] in SINGLETONS:
+                want = [xs[-1]]
+            else:
+                want = []
+                for x in xs:
+                    if key[x] not in [key[y] for y in want]:
+                        want.append(x)
+            if c[5] != want:
+                fail(what + ": from_rdata_list members are not the first occurrences in order", sig="add")
         elif k == 5:
             r, x, t = op[1], op[2], op[3]
             touched = {r}
@@ -1504,6 +1533,7 @@ def extra(ctx):
     # ---- instance level
     covered = set()
     insts = []
+    anomalies = []
     for c_, t_, text in SAMPLES:
         try:
             insts.append((f"{c_} {t_}", dns.rdata.from_text(c_, t_, text, relativize=False)))
@@ -1535,7 +1565,31 @@ def extra(ctx):
                     F.append({"kind": "value:roundtrip", "what": f"{label}: wire round trip gives an unequal / differently hashed record", "cls": label})
         except Exception as e:  # noqa
             F.append({"kind": "value:roundtrip", "what": f"{label}: {type(e).__name__} {e}", "cls": label})
+        # copies and unpickled records must be immutable as well (__setstate__ runs under the same
+        # guard protocol).  Whether a copy is an *equal* record is outside the property text; what
+        # is observed is reported in coverage.copy_pickle_anomalies, not as a failure.
+        for how, f in (("copy", copy.copy), ("deepcopy", copy.deepcopy), ("pickle", lambda x: pickle.loads(pickle.dumps(x)))):
+            count[0] += 1
+            try:
+                rd3 = f(rd)
+            except Exception as e:  # noqa
+                anomalies.append(f"{label}: {how} raised {type(e).__name__}")
+                continue
+            try:
+                same = rd3 == rd and hash(rd3) == hash(rd) and type(rd3) is type(rd)
+            except Exception as e:  # noqa
+                same = False
+            if not same:
+                anomalies.append(f"{label}: {how} is not an equal record")
+            if rd3 is not rd:
+                _probe_object(rd3, label + " (" + how + ")", F, count)
     missing = sorted(c.__module__ + "." + c.__qualname__ for c in registered - covered)
+    # the singleton table hard-coded in the model (is_singleton) is the one of dns.rdatatype
+    if {int(t) for t in dns.rdatatype._singletons} != SINGLETONS:
+        F.append({"kind": "model:singletons", "what": f"dns.rdatatype._singletons = {sorted(int(t) for t in dns.rdatatype._singletons)} differs from the model's table {sorted(SINGLETONS)}"})
+    if not (dns.rdatatype.RRSIG == 46 and dns.rdatatype.SIG == 24 and dns.rdatatype.NONE == 0 and dns.rdata._allow_relative_comparisons is True):
+        F.append({"kind": "model:constants", "what": "RRSIG/SIG/NONE type codes or _allow_relative_comparisons differ from the model"})
+    ctx.notes["copy_pickle_anomalies"] = anomalies
     ctx.notes["immutability_classes"] = len(classes)
     ctx.notes["immutability_instances"] = len(insts)
     ctx.notes["immutability_registered_without_sample"] = missing
